@@ -672,6 +672,18 @@ def jsonable(case):
     return c
 
 
+def _budget_exhausted(ctx, t0, n):
+    """a broken tree can make every history slow (leaks, lock waits): stop generating in time
+    and judge what was run"""
+    import time
+
+    limit = 70 if ctx.tier == "quick" else 650
+    if time.time() - t0 > limit:
+        ctx.assumptions.append("time budget reached after %d cases; remaining generated cases not run" % n)
+        return True
+    return False
+
+
 def run(ctx, deep=False):
     ctx.rule = (
         "histories of get/set/delete/add/expire/commit/flush+rollback/rollback over 2-3 real Sessions and 1-3 rows on a SQLite file, "
@@ -680,8 +692,13 @@ def run(ctx, deep=False):
     )
     ctx.trusted.append("SQLite (file database, pysqlite rowcount) as the executing backend; SQLite serialises writers so session operations are atomic")
     ctx.trusted.append("ORM load/refresh events + an observer connection as the reference oracle's view of what each session saw")
+    import time
+
+    t0 = time.time()
     cases, impl_out, reqs = [], [], []
     for case in gen_cases(ctx, deep):
+        if _budget_exhausted(ctx, t0, len(cases)):
+            break
         line, problems = run_history(case)
         jc = jsonable(case)
         ctx.case((case["variant"], case["eoc"], case["ops"], case.get("flushfirst", False)),
